@@ -113,7 +113,7 @@ def search(ctx):
             if not all(np.isfinite(cs)):
                 ctx.violation("C03:nonfinite", "cross sections not finite: %r" % (cs,), info)
                 continue
-            if abs(cext - (csca + cabs)) > 1e-12 * abs(cext):
+            if not (abs(cext - (csca + cabs)) <= 1e-12 * abs(cext)):
                 ctx.violation("C03:energy", "extinction != scattering + absorption", info)
             if cabs < -1e-7 * cext:      # rounding of the layered recursion reaches ~5e-9 of the extinction
                 ctx.violation("C03:abs-negative", "absorption cross section negative (%g of extinction)" % (cabs / cext), info)
@@ -129,7 +129,7 @@ def search(ctx):
             # optical theorem through calc_scat_matrix at theta = 0
             S0 = calc_scat_matrix(detector_points(theta=[0.0], phi=[0.0]), sc, medium_index=nm, illum_wavelen=wl, theory=Mie()).values[0]
             ot = 4 * math.pi / kw ** 2 * float(np.real(S0[0, 0]))
-            if abs(ot - cext) > 1e-6 * abs(cext):
+            if not (abs(ot - cext) <= 1e-6 * abs(cext)):
                 ctx.violation("C03:optical-theorem", "extinction %g != 4 pi/k^2 Re S(0) = %g" % (cext, ot), info)
             # scattering and asymmetry as solid-angle integrals of |S|^2 (independent quadrature)
             if x <= 40 and i % 2 == 0:
@@ -141,15 +141,15 @@ def search(ctx):
                 dif = (np.abs(s1) ** 2 + np.abs(s2) ** 2)
                 qsca = math.pi / kw ** 2 * float((w * dif).sum())
                 gq = math.pi / kw ** 2 * float((w * dif * mu).sum()) / qsca
-                if abs(qsca - csca) > 1e-5 * csca:
+                if not (abs(qsca - csca) <= 1e-5 * csca):
                     ctx.violation("C03:sca-integral", "scattering cross section %g != solid-angle integral of |S|^2 = %g" % (csca, qsca), info)
-                if abs(gq - g) > 1e-5:
+                if not (abs(gq - g) <= 1e-5):
                     ctx.violation("C03:asymmetry-integral", "asymmetry parameter %g != <cos theta> = %g" % (g, gq), info)
             # Rayleigh limit
             if x <= 1e-2 and not layered:
                 al = (m ** 2 - 1) / (m ** 2 + 2)
                 ray_sca = 8 * math.pi / 3 * x ** 4 * abs(al) ** 2 * (x / kw) ** 2
-                if abs(csca - ray_sca) > 1e-3 * ray_sca:
+                if not (abs(csca - ray_sca) <= 1e-3 * ray_sca):
                     ctx.violation("C03:rayleigh", "small particle: scattering %g vs Rayleigh formula %g" % (csca, ray_sca), info)
             # one-sphere cluster solved by the multi-sphere theory
             if not layered and 0.05 < x < 30 and i % 4 == 0:
@@ -158,7 +158,7 @@ def search(ctx):
                                          theory=Multisphere(eps=1e-10, qeps1=1e-9, qeps2=1e-12)).values
                 rel = np.abs(cm - cs) / np.maximum(np.abs(cs), 1e-6 * cext)
                 rel[3] = abs(cm[3] - cs[3])
-                if rel.max() > 1e-4:
+                if not (rel.max() <= 1e-4):
                     ctx.violation("C03:multisphere-one-sphere", "one-sphere cluster reports %r, single sphere %r" % (cm.tolist(), cs.tolist()), info)
         except Exception as ex:
             import traceback
